@@ -116,6 +116,8 @@ class Interp:
                 return ("rowptr", a[1], a[2] + (b if n["op"] == "+" else -b))
             if isinstance(a, Ptr) and isinstance(b, sympy.Basic) and n["op"] in ("+", "-"):
                 return Ptr(a.obj, a.fixed, a.offset + (b if n["op"] == "+" else -b))
+            if isinstance(a, Obj) and a.role == "DEST" and isinstance(b, sympy.Basic) and n["op"] in ("+", "-"):
+                return ("rowptr", a, (b if n["op"] == "+" else -b))      # the per-particle array advanced by a number of records
             if isinstance(a, sympy.Basic) and isinstance(b, sympy.Basic):
                 return {"+": a + b, "-": a - b, "*": a * b}[n["op"]]
             raise AnalysisBroken("%s: arithmetic on %s not modelled" % (self.facts.loc(n), self.facts.ntext(n)[:50]))
